@@ -109,6 +109,13 @@ def run_case(case):
                     res.fail("stored-key-wrong", "get(%r) wrong" % k)
             except Exception as e:  # noqa
                 res.fail("stored-key-unreadable", "get(%r) raised %r" % (k, e))
+        # the raw-level reader (get over rlp-decoded nodes fetched from the pruned database as the model's executor left it)
+        for k in sorted(model)[:4] + [b"\x77\x77"]:
+            try:
+                out = "v " + hx(trie.get(k))
+            except Exception as e:  # noqa
+                out = "exn " + type(e).__name__
+            res.emit("hx.getat %s %s" % (hx(trie.root_hash), hx(k)), out)
         if counts:
             shared["max"] = max(shared["max"], max(counts.values()))
 
